@@ -10,7 +10,7 @@ use crate::{
     mutate::{pick, PubStatement},
     props::c02::{garbage_oracle, GarbageSpec, Shape},
     refimpl::{ref_prove, Cheat, RefWitness},
-    runner::{guarded, sub, CaseLog, PropertyDef, RunCtx, Sub, Tier},
+    runner::{guarded, setup, sub, CaseLog, PropertyDef, RunCtx, Sub, Tier},
 };
 
 #[derive(Clone, Debug, Serialize, Deserialize, PartialEq, Eq, Hash)]
@@ -58,7 +58,7 @@ pub fn subst_oracle<E: Engine>(_ctx: &RunCtx, spec: &PromSpec, log: &mut CaseLog
     E::reset_case();
     let t = Triple::<E>::build(&spec.base)?;
     let cfg = t.cfg;
-    let proof = guarded(|| t.prove())?.map_err(|e| format!("prover refused a valid witness: {:?}", e))?;
+    let proof = setup(guarded(|| t.prove()), "the prover refused or panicked on a valid witness (C01's subject)")?;
     let j = pick(spec.j, cfg.m);
     let old = t.promises[j];
     let v = t.values[j];
@@ -129,7 +129,7 @@ pub fn subst_oracle<E: Engine>(_ctx: &RunCtx, spec: &PromSpec, log: &mut CaseLog
     }
     // the same question with the genuine (statement, proof) pair as a neighbour in one batch, in both orders: a batch is accepted
     // only if each member is, so a batch holding the substituted pair must be refused unless the promise vectors are equal
-    let genuine = RangeStatement::init(t.params.clone(), t.commitments.clone(), t.promises.clone(), t.seed).map_err(|e| format!("{:?}", e))?;
+    let genuine = RangeStatement::init(t.params.clone(), t.commitments.clone(), t.promises.clone(), t.seed).map_err(crate::runner::skip_err)?;
     for act in [VerifyAction::VerifyOnly, VerifyAction::RecoverAndVerify] {
         for subst_first in [false, true] {
             let sts = if subst_first { [st.clone(), genuine.clone()] } else { [genuine.clone(), st.clone()] };
@@ -157,16 +157,18 @@ pub fn subst_oracle<E: Engine>(_ctx: &RunCtx, spec: &PromSpec, log: &mut CaseLog
         let mut g = crate::gen::chacha(spec.base.bulk ^ 0xc07);
         let pv = [0u64, old.unwrap_or(0)];
         let pr: Vec<Vec<curve25519_dalek::scalar::Scalar>> = (0..2).map(|_| (0..cfg.ext).map(|_| crate::gen::rand_scalar(&mut g)).collect()).collect();
-        let params2 = RangeParameters::init(cfg.bits, 2, t.params.pc_gens().clone()).map_err(|e| format!("{:?}", e))?;
+        let params2 = RangeParameters::init(cfg.bits, 2, t.params.pc_gens().clone()).map_err(crate::runner::skip_err)?;
         let pcs: Vec<E::P> = pv
             .iter()
             .zip(pr.iter())
-            .map(|(v, r)| E::commit(params2.pc_gens(), &curve25519_dalek::scalar::Scalar::from(*v), r).map_err(|e| format!("{:?}", e)))
+            .map(|(v, r)| E::commit(params2.pc_gens(), &curve25519_dalek::scalar::Scalar::from(*v), r).map_err(crate::runner::skip_err))
             .collect::<Result<_, _>>()?;
-        let pst = RangeStatement::init(params2, pcs, vec![None, old], None).map_err(|e| format!("{:?}", e))?;
-        let pw = RangeWitness::init(pv.iter().zip(pr.iter()).map(|(v, r)| CommitmentOpening::new(*v, r.clone())).collect()).map_err(|e| format!("{:?}", e))?;
-        let pproof = guarded(|| E::prove(&mut t.transcript(), &pst, &pw, &mut crate::eng::RngSpec::ChaCha(spec.base.bulk).make()))?
-            .map_err(|e| format!("prover refused the honest two-commitment neighbour: {:?}", e))?;
+        let pst = RangeStatement::init(params2, pcs, vec![None, old], None).map_err(crate::runner::skip_err)?;
+        let pw = RangeWitness::init(pv.iter().zip(pr.iter()).map(|(v, r)| CommitmentOpening::new(*v, r.clone())).collect()).map_err(crate::runner::skip_err)?;
+        let pproof = setup(
+            guarded(|| E::prove(&mut t.transcript(), &pst, &pw, &mut crate::eng::RngSpec::ChaCha(spec.base.bulk).make())),
+            "the prover refused or panicked on the honest two-commitment neighbour (C01's subject)",
+        )?;
         for act in [VerifyAction::VerifyOnly, VerifyAction::RecoverAndVerify] {
             let r = guarded(|| {
                 E::verify(
@@ -240,7 +242,7 @@ pub fn boundary_oracle<E: Engine>(_ctx: &RunCtx, spec: &BoundarySpec, log: &mut 
     // promise == value
     let mut p_eq = t.promises.clone();
     p_eq[j] = Some(v);
-    let st_eq = RangeStatement::init(t.params.clone(), t.commitments.clone(), p_eq, t.seed).map_err(|e| format!("{:?}", e))?;
+    let st_eq = RangeStatement::init(t.params.clone(), t.commitments.clone(), p_eq, t.seed).map_err(crate::runner::skip_err)?;
     let proof = guarded(|| E::prove(&mut t.transcript(), &st_eq, &t.w, &mut spec.base.rng.make()))?
         .map_err(|e| format!("prover refused promise == value at position {}: {:?}", j, e))?;
     guarded(|| E::verify(&mut [t.transcript()], &[st_eq.clone()], &[proof.clone()], VerifyAction::VerifyOnly))?
@@ -249,7 +251,7 @@ pub fn boundary_oracle<E: Engine>(_ctx: &RunCtx, spec: &BoundarySpec, log: &mut 
     if v < u64::MAX {
         let mut p_gt = t.promises.clone();
         p_gt[j] = Some(v + 1);
-        let st_gt = RangeStatement::init(t.params.clone(), t.commitments.clone(), p_gt.clone(), t.seed).map_err(|e| format!("{:?}", e))?;
+        let st_gt = RangeStatement::init(t.params.clone(), t.commitments.clone(), p_gt.clone(), t.seed).map_err(crate::runner::skip_err)?;
         let r = guarded(|| E::prove(&mut t.transcript(), &st_gt, &t.w, &mut spec.base.rng.make()))?;
         if r.is_ok() {
             return Err(format!(
